@@ -227,7 +227,7 @@ CLAIMED = {
 ADDENDA = {
     'C07': ' The whole hash-group body of an ejection check keeps the molecules it did not select; an ejection check is made for the contig and end of the fragment that triggered it, whatever the iterator state; Fragment.update_span.',
     'C02': ' Bounded: reverse_complement on every string over ACGTN up to 5 bases.',
-    'C01': ' FastqIterator reads LF, CRLF and unterminated last lines alike.',
+    'C01': ' FastqIterator reads a file whose last line has no newline like any other.',
     'C03': ' The constructor allocates its tables per instance (two parsers share nothing). Bounded: parse_barcode_file fills the whitelist table with the index written on the line of each barcode for one-column, barcode-first, index-first and named-index files of two rows (symbolic barcodes over ACGTN), and refuses a three-column file.',
     'C05': ' Bounded: get_contigs_with_reads lists a contig iff the index statistics show mapped or placed-unmapped records. ReadIterator puts a record into the slot of its mate number; the read group of a read is taken from its own tags.',
     'C06': ' Every pass of MoleculeIterator.__iter__ starts with empty buffers and reset counters. The bucket keys of CHIC and NlaIII fragments and the site overrides of the molecule classes are under contract; plain Fragment equality compares contig, strand, sample and UMI.',
